@@ -1,6 +1,7 @@
 package main
 
 import (
+	"go/constant"
 	"fmt"
 	"go/token"
 	"go/types"
@@ -12,18 +13,19 @@ import (
 
 func init() {
 	register("C21", func(r *Report) {
-		r.Explanation = "Encoder/decoder table agreement, which is necessary for round-trip equality and sufficient for every field whose handling is value independent. Decided: (R1) for each of the 28 packet types and each variant the codec branches on (topic-ID type, DISCONNECT duration zero/non-zero, empty WILLTOPIC), the ordered buffer writes of Pack and the (field <- buffer position) stores of the single accepting Unpack path list the same fields at the same offsets and widths; (R2) every flag field uses the same mask and shift in encodeFlags and decodeFlags, masks are disjoint, booleans occupy their whole mask; (R3) the length handed to the header equals the number of bytes written and is set before the header is written; (R4) the type tag in each constructor equals the tag NewPacketWithHeader maps to that struct, tags are distinct; (R5) SetVarPartLength, HeaderLength, PackToBuffer and Header.Unpack switch between the 2- and 4-byte header forms at the same total length (255) and use the same byte positions; (R6) the short-topic codec moves byte 0 to the high octet and byte 1 to the low octet in both directions and never goes through rune/UTF-8 conversions. Not decided: equality for every field value (e.g. lengths above 65535, reported under C23)."
+		r.Explanation = "Encoder/decoder table agreement, which is necessary for round-trip equality and sufficient for every field whose handling is value independent. Decided: (R1) for each of the 28 packet types and each variant the codec branches on (topic-ID type, DISCONNECT duration zero/non-zero, empty WILLTOPIC), the ordered buffer writes of Pack and the (field <- buffer position) stores of the single accepting Unpack path list the same fields at the same offsets and widths; (R2) every flag field uses the same mask and shift in encodeFlags and decodeFlags, masks are disjoint, booleans occupy their whole mask; (R3) the length handed to the header equals the number of bytes written and is set before the header is written; (R4) the type tag in each constructor equals the tag NewPacketWithHeader maps to that struct, tags are distinct; (R5) SetVarPartLength, HeaderLength, PackToBuffer and Header.Unpack switch between the 2- and 4-byte header forms at the same total length (255) and use the same byte positions; (R6) the short-topic codec moves byte 0 to the high octet and byte 1 to the low octet in both directions and never goes through rune/UTF-8 conversions; IsShortTopic accepts exactly the names of two bytes; (R7) the receive buffer holds every datagram a sender may produce (C22-R3). Not decided: equality for every field value (e.g. lengths above 65535, reported under C23)."
 		r.floor("R1", 28)
 		r.floor("R2", 5)
 		r.floor("R3", 28)
 		r.floor("R4", 28)
 		r.floor("R5", 8)
-		r.floor("R6", 2)
+		r.floor("R6", 3)
 	}, checkC21)
 	register("C22", func(r *Report) {
-		r.Explanation = "Decided: (R1) for each packet type and variant the single accepting decoder path reads every field from the byte position the MQTT-SN 1.2 message format (and doc/auth.md for AUTH) assigns to it - the specification table is frozen in the checker, one line per field; (R2) the body is sliced at the size of the header form that Header.Unpack actually parsed: for the long form (first octet 0x01) HeaderLength yields 4 whatever the length value, for the short form 2, and ReadPacket slices the very buffer it handed to Header.Unpack; the type is read at offset 3 resp. 1; (R3) no decoded field originates from anything but datagram bytes or constants. Not decided: semantic validity of the decoded values."
+		r.Explanation = "Decided: (R1) for each packet type and variant the single accepting decoder path reads every field from the byte position the MQTT-SN 1.2 message format (and doc/auth.md for AUTH) assigns to it - the specification table is frozen in the checker, one line per field; (R2) the body is sliced at the size of the header form that Header.Unpack actually parsed: for the long form (first octet 0x01) HeaderLength yields 4 whatever the length value, for the short form 2, and ReadPacket slices the very buffer it handed to Header.Unpack; the type is read at offset 3 resp. 1; (R3) the whole datagram is decoded: the buffer ReadPacket hands to the connection's Read is at least as long as the longest datagram a bisquitt sender lets through and as MaxPayloadLength plus the longest fixed part, so no legal datagram is truncated and then decoded as if complete. Not decided: semantic validity of the decoded values."
 		r.floor("R1", 28)
 		r.floor("R2", 3)
+		r.floor("R3", 1)
 	}, checkC22)
 }
 
@@ -200,6 +202,53 @@ func checkC21(c *Ctx, r *Report) {
 	}
 	cm.checkHeader(r, "R5")
 	cm.checkShortTopic(r, "R6")
+	cm.checkIsShortTopic(r, "R6")
+	importRules(c, r, "C22", map[string]string{"R3": "R7"})
+}
+
+// checkIsShortTopic: the predicate every resolver uses to decide that a name
+// travels as a 2-byte short topic must accept exactly the names of two BYTES:
+// EncodeShortTopic packs bytes 0 and 1 and nothing else, so a name of another
+// byte length that passes the predicate is sent truncated (or panics).
+func (cm *codecModel) checkIsShortTopic(r *Report, rule string) {
+	c := cm.c
+	f := c.SSA[pkPackets].Func("IsShortTopic")
+	if f == nil {
+		r.undecided(rule, "IsShortTopic", "-", "IsShortTopic not found")
+		return
+	}
+	r.fn(f)
+	// explore the predicate for each byte length of the name; len(name) (also of []byte(name)) is the
+	// only thing the result may depend on
+	okc := len(f.Params) == 1
+	for n := int64(0); n <= 5 && okc; n++ {
+		e := &explorer{c: c}
+		e.Inline = func(g *ssa.Function) bool { return false }
+		nn := n
+		e.ValueHook = func(v ssa.Value, e *explorer, st *pstate, fr *frame) (aval, bool) {
+			if lc, ok := v.(*ssa.Call); ok {
+				if bi, ok := lc.Call.Value.(*ssa.Builtin); ok && bi.Name() == "len" && stripConv(lc.Call.Args[0]) == ssa.Value(f.Params[0]) {
+					return kint(nn), true
+				}
+			}
+			return aval{}, false
+		}
+		outs := e.Explore(f, nil, nil)
+		if len(outs) == 0 {
+			okc = false
+		}
+		for _, o := range outs {
+			want := "0"
+			if n == 2 {
+				want = "1"
+			}
+			if len(o.Ret) != 1 || o.Ret[0] != want {
+				okc = false
+			}
+		}
+	}
+	r.cond(okc, rule, "IsShortTopic", c.pos(f.Pos()), "IsShortTopic(name) == (len(name) == 2), byte length",
+		"IsShortTopic is not exactly 'the name is 2 bytes long': a name it accepts with another byte length (e.g. two multi-byte characters) is packed into a topic ID from its first two bytes only, so the receiver decodes a different name")
 }
 
 func itemsStr(items []layItem) string {
@@ -896,6 +945,142 @@ func checkC22(c *Ctx, r *Report) {
 	}
 	cm.checkHeader(r, "R2")
 	cm.checkReadPacketSlicing(r, "R2")
+	cm.checkReadBuffer(r, "R3")
+}
+
+// senderBound: the largest datagram the MQTT-SN sender of package rel lets
+// through (constant of the length guard dominating its connection write), -1
+// when there is no guard.
+func (c *Ctx) senderBounds(rel string) map[ssa.CallInstruction]int64 {
+	out := map[ssa.CallInstruction]int64{}
+	senders := c.snSenders(rel)
+	for _, w := range c.connWriteSites(rel) {
+		f := w.Parent()
+		if !senders[f] {
+			continue
+		}
+		args := w.Common().Args
+		buf := args[len(args)-1]
+		bound := int64(-1)
+		for _, g := range guardsOf(w.Block()) {
+			x, y, op, isCmp := cmpGuard(g)
+			if !isCmp {
+				continue
+			}
+			isLen := func(v ssa.Value) bool {
+				lc, ok := v.(*ssa.Call)
+				if !ok {
+					return false
+				}
+				b, ok := lc.Call.Value.(*ssa.Builtin)
+				return ok && b.Name() == "len" && (lc.Call.Args[0] == buf || sameExpr(lc.Call.Args[0], buf))
+			}
+			if k, ok := constInt(y); ok && isLen(x) {
+				switch op {
+				case token.LEQ, token.EQL:
+					bound = k
+				case token.LSS:
+					bound = k - 1
+				}
+			}
+			if k, ok := constInt(x); ok && isLen(y) {
+				switch op {
+				case token.GEQ, token.EQL:
+					bound = k
+				case token.GTR:
+					bound = k - 1
+				}
+			}
+		}
+		out[w] = bound
+	}
+	return out
+}
+
+// checkReadBuffer: R3 of C22. A datagram longer than the buffer handed to the
+// connection's Read is silently truncated by the transport, and the truncated
+// bytes still decode (the body is "the rest of the buffer"). So the buffer must
+// be at least as long as the longest datagram a bisquitt sender lets through,
+// and at least MaxPayloadLength plus the longest fixed part (long header 4 +
+// PUBLISH fixed fields 5).
+func (cm *codecModel) checkReadBuffer(r *Report, rule string) {
+	c := cm.c
+	f := c.SSA[pkPackets1].Func("ReadPacket")
+	if f == nil {
+		r.undecided(rule, "ReadPacket:buffer", "-", "ReadPacket not found")
+		return
+	}
+	key := "ReadPacket:read-buffer"
+	var readCall ssa.CallInstruction
+	allInstrs(f, func(i ssa.Instruction) {
+		if ci, ok := i.(ssa.CallInstruction); ok && ci.Common().IsInvoke() && ci.Common().Method.Name() == "Read" {
+			readCall = ci
+		}
+	})
+	if readCall == nil {
+		r.undecided(rule, key, c.pos(f.Pos()), "no Read call on the connection found in ReadPacket")
+		return
+	}
+	// length of the slice given to Read: make([]byte, K) or a slice of a [K]byte array
+	L := int64(-1)
+	v := readCall.Common().Args[0]
+	for d := 0; d < 4 && L < 0; d++ {
+		switch x := v.(type) {
+		case *ssa.MakeSlice:
+			if k, ok := constInt(x.Len); ok {
+				L = k
+			}
+		case *ssa.Slice:
+			if x.Low == nil && x.High == nil {
+				if pt, ok := x.X.Type().Underlying().(*types.Pointer); ok {
+					if at, ok := pt.Elem().Underlying().(*types.Array); ok {
+						L = at.Len()
+					}
+				}
+				v = x.X
+				continue
+			}
+			if x.High != nil {
+				if k, ok := constInt(x.High); ok {
+					lo := int64(0)
+					if x.Low != nil {
+						lo, _ = constInt(x.Low)
+					}
+					L = k - lo
+				}
+			}
+		}
+		break
+	}
+	if L < 0 {
+		r.undecided(rule, key, c.instrPos(readCall), "the length of the buffer handed to Read is not a constant the analysis can see: "+exprStr(readCall.Common().Args[0]))
+		return
+	}
+	need := int64(0)
+	why := ""
+	for _, rel := range []string{"gateway", "client"} {
+		for w, b := range c.senderBounds(rel) {
+			if b < 0 {
+				continue // unbounded sender: C23-R5's violation
+			}
+			if b > need {
+				need, why = b, fmt.Sprintf("the %s sender lets datagrams of up to %d bytes through (%s)", rel, b, c.instrPos(w))
+			}
+		}
+	}
+	if obj := c.ByPath[pkPackets1].Types.Scope().Lookup("MaxPayloadLength"); obj != nil {
+		if k, ok := obj.(*types.Const); ok {
+			if n, exact := constant.Int64Val(constant.ToInt(k.Val())); exact && n+9 > need {
+				need, why = n+9, fmt.Sprintf("MaxPayloadLength (%d) + long header (4) + PUBLISH fixed fields (5)", n)
+			}
+		}
+	}
+	if need == 0 {
+		r.undecided(rule, key, c.instrPos(readCall), "neither a sender size guard nor MaxPayloadLength found to compare the read buffer with")
+		return
+	}
+	r.cond(L >= need, rule, key, c.instrPos(readCall), fmt.Sprintf("read buffer of %d bytes >= %d: %s", L, need, why),
+		fmt.Sprintf("the read buffer holds %d bytes but %s: a longer datagram is truncated by the transport and the truncated bytes decode without error into a packet that does not reflect the datagram", L, why))
 }
 
 // checkReadPacketSlicing: ReadPacket slices the buffer it gave to
